@@ -98,8 +98,6 @@ let mode = ref Os
 let pm_area = ref (-1)
 let pm_thread = ref (-1)
 let warmed = ref false
-(* ASan fills fresh heap blocks with 0xbe bytes: the uninitialised words of the model *)
-let garbage = { fin = n_of_hex (Stdlib.String.concat "" (Stdlib.List.init 256 (fun _ -> "be"))); inf = false }
 let max_numnodes () = let m = ref 64 in while !m < !os_maxnodes do m := 2 * !m done; !m
 
 let parse_info toks =
@@ -137,7 +135,7 @@ let call (a : apicall) =
        report ~alloc r s.s_errno (Stdlib.List.map htext s.s_trace)
      | Os ->
        let w0 = { l_k = (); l_pm_area = z_of_int !pm_area; l_pm_thread = z_of_int !pm_thread; l_ktrace = [] } in
-       let (r, s) = linux_run scripted_kernel t Z0 (n_of_int 256) (n_of_int (max_numnodes ())) garbage (fun _ -> true) a w0 in
+       let (r, s) = linux_run scripted_kernel t Z0 (n_of_int 256) (n_of_int (max_numnodes ())) (fun _ -> true) a w0 in
        pm_area := int_of_z s.s_w.l_pm_area; pm_thread := int_of_z s.s_w.l_pm_thread;
        report ~alloc r s.s_errno (Stdlib.List.filter_map ktext s.s_w.l_ktrace))
 
